@@ -11,10 +11,18 @@ def special_scripts(rng, tier):
     return special.multi_frame_removal_scripts(rng, 30 if tier == "quick" else 1500) + special.away_scripts(rng, 20 if tier == "quick" else 1000)
 
 
+def impl_only(rng, tier):
+    import os, sys
+    from common import VERIF
+    sys.path.insert(0, os.path.join(VERIF, "gen"))
+    import special
+    return lazy_backend_scripts(rng, tier) + special.marker_scripts(rng, 40 if tier == "quick" else 1500)
+
+
 def run(tier, seed, replay):
     kws = [dict(burst=0.08, max_size=1), dict(weights=dict(deliver=5.0, drop=1.2)), dict(max_size=1, weights=dict(drop=1.5)), dict(nclients=2, track=True), dict(weights=dict(sop=8.0, sframe=4.0)),
            dict(max_size=1, quiet_tail=1.0, length=25), dict(max_size=1, quiet_tail=1.0, length=40, timeout=40), dict(sessions=True, weights=dict(sop=7.0, session=0.6))]
-    return sim_check("C02", tier, seed, kws, n_quick=240, n_thorough=24000, oracle_props={"C02"}, known_ids=("D19", "D31"), impl_only_scripts=lazy_backend_scripts, custom_scripts=special_scripts,
-                     impl_only_label="a backend that collects outgoing messages a frame late while another client disconnects",
+    return sim_check("C02", tier, seed, kws, n_quick=240, n_thorough=24000, oracle_props={"C02"}, known_ids=("D19", "D31"), impl_only_scripts=impl_only, custom_scripts=special_scripts,
+                     impl_only_label="a backend that collects outgoing messages a frame late while another client disconnects; client entities carrying command markers (custom write functions, one with history)",
                      rule_extra=", with the update channel held for several steps while mutate messages and acknowledgements flow, mutate messages dropped and delivered newest-first",
                      extra_assumptions=["checked after every client frame against per-tick server snapshots recorded by the harness; history markers (need_history) are not part of the pool"])
